@@ -8,7 +8,8 @@ from common import close, mat, num, unval, vec
 
 
 def check(run, driver):
-    from causationentropy.datasets import synthetic as S
+    from common import ModuleEntryPoints
+    S = ModuleEntryPoints("causationentropy.datasets.synthetic", "causationentropy.datasets")     # both public paths, in turn
 
     run.rule = (
         "logisic_dynamics(n,p,t,r,sigma,seed): default call, boundary values r in {0,4}, sigma in {0,1}, p in {0,1}, "
@@ -30,10 +31,17 @@ def check(run, driver):
             t=int(rng.integers(1, 201 if thorough else 80)), r=float(rng.choice([0.0, 4.0, 3.99, 4 * rng.random()])),
             sigma=float(rng.choice([0.0, 1.0, rng.random()])), seed=int(rng.integers(0, 10**6))))
     reqs, meta = [], []
-    for cfg in configs:
-        XY, A = S.logisic_dynamics(**cfg)
+    DOC_ORDER = ("n", "p", "t", "r", "sigma", "seed")     # the documented positional order of the public signature
+    for ci, cfg in enumerate(configs):
         full = dict(n=20, p=0.1, t=100, r=3.99, sigma=0.1, seed=42)
         full.update(cfg)
+        if ci % 3 == 1:        # positional call, leading arguments positional and the rest by keyword, or all by keyword: the same request
+            XY, A = S.logisic_dynamics(*[full[k] for k in DOC_ORDER])
+        elif ci % 3 == 2:
+            cut = 1 + ci % 5
+            XY, A = S.logisic_dynamics(*[full[k] for k in DOC_ORDER[:cut]], **{k: full[k] for k in DOC_ORDER[cut:]})
+        else:
+            XY, A = S.logisic_dynamics(**cfg)
         n, t = full["n"], full["t"]
         G = nx.erdos_renyi_graph(n, full["p"], seed=full["seed"])
         nontrivial = G.number_of_edges() > 0 and full["sigma"] > 0 and full["r"] > 0 and t >= 3
